@@ -27,12 +27,14 @@ def walks(n, max_steps=25, step_posts=False, seed=0, ids=(1, 2, 3, 4), tag="walk
     return hs
 
 
-def slots(tag="slots", ck=None, timeout=900):
+def slots(tag="slots", ck=None, timeout=900, with_complex=False):
+    """one minimal document per point of the slot product; with_complex adds the position "aftercomplex" (the keyword
+    as first simple keyword behind a block-valued item of each complex shape its block type has)"""
     vocab.get()
     cfg = tlc.cfg_text(init="PInit", next_="PNext",
                        constants={"MaxDepth": 5, "MaxSteps": 12, "Ids": {1}, "StepPosts": False,
                                   "Mode": "slots"},
-                       invariants=["PEmit"] + READER_INVS)
+                       invariants=["PEmit"] + READER_INVS) + ("CONSTANT WithComplex <- Yes\n" if with_complex else "")
     r = tlc.run("SlotProbe", cfg, tag=tag, workers=1, timeout=timeout)
     if r.violated:
         raise MachineryFailure("Reader invariant %s violated on slot probes" % r.violated)
